@@ -22,6 +22,27 @@ func fieldOf(n int, kind int) string {
 	case 2:
 		return strings.Repeat("\xff", n)
 	}
+	if kind >= 4 && n > 0 {
+		// white space where an encoder might be tempted to trim: all blanks, trailing blank / LF /
+		// CRLF / tab, leading blank
+		switch kind {
+		case 4:
+			return strings.Repeat(" ", n)
+		case 5:
+			return strings.Repeat("a", n-1) + " "
+		case 6:
+			return strings.Repeat("a", n-1) + "\n"
+		case 7:
+			if n >= 2 {
+				return strings.Repeat("a", n-2) + "\r\n"
+			}
+			return "\r"
+		case 8:
+			return " " + strings.Repeat("a", n-1)
+		case 9:
+			return strings.Repeat("a", n-1) + "\t"
+		}
+	}
 	b := make([]byte, n)
 	for i := range b {
 		b[i] = byte(i*7 + 3)
@@ -129,8 +150,11 @@ func TestC13(t *testing.T) {
 	}
 	// ---- 2. responses
 	for _, ok := range []bool{true, false} {
-		for _, ml := range []int{0, 1, 2, 3, 100, 252, 253} {
-			for kind := 0; kind < 3; kind++ {
+		for ml := 0; ml <= 253; ml++ {
+			for kind := 0; kind < 10; kind++ {
+				if ml == 0 && kind > 0 {
+					continue
+				}
 				msg := fieldOf(ml, kind)
 				resp := &Response{ok, msg}
 				data, err := resp.Marshal()
@@ -145,6 +169,10 @@ func TestC13(t *testing.T) {
 				if err != nil || !bytes.Equal(data, refEncodeParts(text)) {
 					viol("response-encoding-differs", "Marshal(%v, %d-byte message) = %x (err %v), want %x", ok, ml, head(data), err, head(refEncodeParts(text)))
 					continue
+				}
+				var wbuf bytes.Buffer
+				if err := resp.Encode(&wbuf); err != nil || !bytes.Equal(wbuf.Bytes(), data) {
+					viol("response-encode-differs-from-marshal", "Encode(%v, %d-byte message kind %d) wrote %x (err %v), Marshal gives %x", ok, ml, kind, head(wbuf.Bytes()), err, head(data))
 				}
 				var back Response
 				if err := back.Unmarshal(data); err != nil || back.Result != ok || back.Message != msg {
@@ -222,7 +250,7 @@ func TestC13(t *testing.T) {
 	ev.Set("strings_decoded", nstr)
 	ev.Set("fragmentations", nfrag)
 	ev.Sample(map[string]any{"stream": fmt.Sprintf("%x", streams[7]), "fragmentation": "every composition into reads + zero-length reads + EOF with/after data"})
-	ev.Rule = fmt.Sprintf("encoder: all 6^4 field-length vectors over {0,1,2,255,256,257} x 4 content kinds + 65535/65536/70000-byte fields; responses ok x 7 message lengths x 3 kinds; decoder: all %d byte strings of length <= %d over {00,01,02,a,O,K,N,space} as request and response vs. a reference decoder incl. re-encoding of the consumed prefix; %d streams (valid encodings cut at every byte, trailing bytes) under every composition into reads (<= %d bytes), zero-length reads, EOF with/after data; distinct = distinct decode outcomes + encoder cells", nstr, maxLen, len(streams), fragLimit)
+	ev.Rule = fmt.Sprintf("encoder: all 6^4 field-length vectors over {0,1,2,255,256,257} x 4 content kinds + 65535/65536/70000-byte fields; responses ok x every message length 0..253 x 10 content kinds (incl. all-blank, trailing blank/LF/CRLF/tab, leading blank), Marshal and Encode; decoder: all %d byte strings of length <= %d over {00,01,02,a,O,K,N,space} as request and response vs. a reference decoder incl. re-encoding of the consumed prefix; %d streams (valid encodings cut at every byte, trailing bytes) under every composition into reads (<= %d bytes), zero-length reads, EOF with/after data; distinct = distinct decode outcomes + encoder cells", nstr, maxLen, len(streams), fragLimit)
 	ev.Finish()
 }
 
